@@ -34,7 +34,7 @@ TIERS = {
 STEP_CAP = 500000
 SHRINK_BUDGET = 250
 FAULT_OPS = ("restart", "redeliver", "alloc", "gc", "prune", "side_job", "reorder_library")
-PROBES = ["redelivery_hit_template", "restart_between_batches", "near_miss_same_pregroup",
+PROBES = ["entries_carry_unrelated_columns", "redelivery_hit_template", "restart_between_batches", "near_miss_same_pregroup",
           "class_of_size_ge3_split_across_batches", "single_batch_no_template_path", "relabelled_duplicate",
           "one_shot_compared", "lib_check_new_class", "lib_check_existing_class", "library_ids_not_contiguous",
           "library_not_in_ascending_class_order", "empty_centre_item", "caller_postprocessed_returned_entries",
@@ -112,7 +112,8 @@ def generate(seed: int, tier: str = "quick") -> Dict[str, Any]:
         syn = ["syn%d" % i for i in fam]
         pool = (syn * 3 + pool[:2]) if rng.random() < 0.5 else (pool + syn * 2)
     near_p = rng.choice([0.0, 0.15, 0.3])
-    cfg = {"attr": rng.random() < 0.6, "attr_kind": rng.choice(["str", "str", "deg_desc", "size_pair"])}
+    cfg = {"attr": rng.random() < 0.6, "attr_kind": rng.choice(["str", "str", "deg_desc", "size_pair"]),
+           "extra_fields": rng.random() < 0.3}
     faulty = rng.random() < 0.75
     ops: List[Dict[str, Any]] = []
     k = 0
@@ -213,6 +214,12 @@ def _run(case: Dict[str, Any], sim: Sim, world: World) -> None:
         d: Dict[str, Any] = {"gml": g, "uid": uid}
         if akey:
             d[akey] = rcdata.invariant_attr_kind(g, case["cfg"].get("attr_kind", "str"))
+        if case["cfg"].get("extra_fields"):
+            # the caller's own bookkeeping columns, unrelated to the key it names in the call (and not invariant)
+            d["signature"] = "row-%d" % uid
+            d["WLHash"] = "h%d" % (uid % 3)
+            d["R-id"] = uid
+            sim.probe("entries_carry_unrelated_columns")
         return d
 
     def check_templates(site: str) -> None:
